@@ -62,11 +62,15 @@ func (e *unionSetEnumerator) MoveNext() bool {
 	if e.current != nil && e.current.MoveNext() {
 		return true
 	}
-	if !e.set.next() {
-		return false
+	// Skip subsets that enumerate nothing: stopping at one would hide the
+	// remaining subsets, whichever they are in this process's bucket order.
+	for e.set.next() {
+		e.current = e.set.subset().Enumerator()
+		if e.current.MoveNext() {
+			return true
+		}
 	}
-	e.current = e.set.subset().Enumerator()
-	return e.current.MoveNext()
+	return false
 }
 
 func (e *unionSetEnumerator) Current() Value {
@@ -89,12 +93,14 @@ func (e *unionSetOrderedEnumerator) MoveNext() bool {
 	if e.current != nil && e.current.MoveNext() {
 		return true
 	}
-	if len(e.subsets) == 0 {
-		return false
+	for len(e.subsets) > 0 {
+		e.current = e.subsets[0].ArrayEnumerator()
+		e.subsets = e.subsets[1:]
+		if e.current.MoveNext() {
+			return true
+		}
 	}
-	e.current = e.subsets[0].ArrayEnumerator()
-	e.subsets = e.subsets[1:]
-	return e.current.MoveNext()
+	return false
 }
 
 func (e *unionSetOrderedEnumerator) Current() Value {
